@@ -209,7 +209,8 @@ class RelayMode(vlib.Mode):
                     admin(sig="badsecret"), admin(exp=f"i{now}"), admin(exp="a"), admin(aud=lval(["nope"])), "-", tok(now)])
                 bid = rng.choice([sval(rng.choice(BIDS))] * 6 + ["a", "s-"])
                 exp = rng.choice([sval(str(now + 500))] * 5 + [sval(str(now)), sval(str(now - 1)), "a", sval("abc"), sval("-5"),
-                                                                   sval("9223372036854775808"), sval("+7"), "s-", sval("1e3")])
+                                                                   sval("9223372036854775808"), sval("+7"), "s-", sval("1e3"), sval("-9223372036854775808"),
+                                                                   sval("-9223372036854775807"), sval("9223372036854775807"), sval("-9223372036854775809")])
                 case.append(f"{verb} {cred} {bid} {exp}")
                 if verb == "deny" and cred.startswith("alg=") and "relay:admin".encode().hex() in cred and bid.startswith("s") and bid != "s-":
                     st["denied"].add(unhx(bid[1:]).decode())
@@ -480,6 +481,7 @@ class RawMode(vlib.Mode):
         paths = ["/", "/session", "/session/", "/session/t1/", "/session/t1/x", "/sessions/t1", "/bids", "/bids/deny/", "/bids/allow/x",
                  "/status/", "/nope", "/bids/deny?bid=b1", "/bids/deny?exp=5", "/bids/deny?bid=&exp=5", "/bids/deny?bid=b1&exp=",
                  "/bids/deny?bid=b1&exp=-1", "/bids/deny?bid=b1&exp=9223372036854775808", "/bids/deny?bid=b1&exp=1e3",
+                 "/bids/deny?bid=b1&exp=-9223372036854775808", "/bids/allow?bid=b1&exp=-9223372036854775808", "/bids/deny?bid=b1&exp=-9223372036854775000",
                  "/bids/deny?bid=b1&exp=abc", "/bids/allow?bid=b1&exp=abc", "/bids/deny?bid=b1&exp=5&exp=x", "/session/t1?x=1",
                  "/status?x=1", "/bids/deny", "/bids/allow", "/status", "/session/t1"]
         methods = ["GET", "POST", "PUT", "DELETE", "PATCH", "HEAD", "OPTIONS"]
@@ -506,7 +508,7 @@ class RawMode(vlib.Mode):
                     # skip the combinations that are valid requests
                     # go-openapi ignores one trailing slash, so those spellings are the valid endpoints too
                     valid = (m, p.split("?")[0].rstrip("/")) in {("POST", "/session/t1"), ("GET", "/bids/deny"), ("GET", "/bids/allow"), ("GET", "/status")}
-                    if not valid and not (m == "POST" and p.startswith(("/bids/deny?bid=b1&exp=-1", "/bids/deny?bid=b1&exp=5&"))):
+                    if not valid and not (m == "POST" and p.startswith("/bids/deny?bid=b1&exp=5&")):
                         case.append(f"raw {m} {hx(p)} {cred}")
                 else:
                     case.append(f"session {good} {hx('t1')}")     # known-good request: must still be served
